@@ -14,6 +14,7 @@ import copy
 import math
 import os
 import random
+import shutil
 
 import numpy as np
 
@@ -39,6 +40,7 @@ PROPS = {
 
 THR2 = (3, 7)
 W = int(os.environ.get("VERIF_TLC_WORKERS", "16"))
+GAP_MIN = 0.05                   # smallest band gap admitted in the numeric comparisons (named exclusion)
 LATS = {"LatSkew": ((1, 0, 0), (1, 2, 0), (0, -1, 2)), "LatOrtho": ((1, 0, 0), (0, 2, 0), (0, 0, 3))}
 
 
@@ -434,7 +436,7 @@ def check(pid, tier):
     # ---------------- spec: from_nodes
     counts = {}
     keep = []
-    configs = [("c29_nodes", cfg_nodes("NodeSetTiny", 3, 1, "LatSkew", factors="{2, 3}", nks="{2, 4}", invs="InvsTwo"), "LatSkew", True)]
+    configs = [("c29_nodes", cfg_nodes("NodeSetTiny", 3, 1, "LatSkew", factors="{2}", nks="{2, 4}", invs="InvsTwo"), "LatSkew", True)]
     if thorough:
         configs = [("c29_nodes", cfg_nodes("NodeSetQuick", 3, 2, "LatSkew"), "LatSkew", True),
                    ("c29_nodes_ortho", cfg_nodes("NodeSetTiny", 4, 1, "LatOrtho", nks="{2, 4}"), "LatOrtho", True),
@@ -544,7 +546,7 @@ def numeric_paths(rep, rng, keep, thorough):
     npts = 0
     wd = workdir("c29_run")
     for isys in range(nsys):
-        for _try in range(20):
+        for _try in range(60):
             system = U.random_system(rng, nw=3)
             sel = rng.sample(keep, min(npaths, len(keep)))
             ok = True
@@ -557,7 +559,7 @@ def numeric_paths(rep, rng, keep, thorough):
                         path = path.get_refined(factor=2)
                 single = [U.eval_point(system, k, which) for k in path.K_list]
                 gap = min(float(np.min(np.diff(s["Energy"]))) for s in single)
-                if gap < 1e-3:      # per-band vector quantities are ambiguous at degeneracies: take another model
+                if gap < GAP_MIN:   # per-band quantities are ill-conditioned near degeneracies (error ~ eps/gap^3): take another model
                     ok = False
                     break
                 cases.append((nodes, labels, spec, nd, path, single))
@@ -594,6 +596,8 @@ def numeric_paths(rep, rng, keep, thorough):
                         j = int(np.argmax(np.max(np.abs(got - exp).reshape(len(exp), -1), axis=1)))
                         rep.violation(f"tabulate_path:{q}", dict(detail, point_index=j, k=path.K_list[j].tolist(), maxdiff=dev, tolerance=tol))
                 npts += len(path.K_list)
+    shutil.rmtree(wd, ignore_errors=True)
+    rep.assume(f"numeric part: models whose bands come closer than {GAP_MIN} eV on the path are replaced (per-band quantities are ill-conditioned there)")
     rep.part("numeric_only", what="run(Path)/evaluate_k_path (serial) vs evaluate_k at every path point: Energy, Berry curvature (internal terms), velocity",
              systems=nsys, path_points=npts, max_deviation=maxdev, tolerance=tol)
     if maxdev * 1e4 > tol:
